@@ -63,7 +63,7 @@ MANIFEST = {
 BUDGET = {
     # throughput is bound by fork + copy-on-write page faults (about 10 us per fault in this VM and not parallel):
     # ~0.5 cases/s whatever the worker count; every case makes 6-30 real forks
-    "quick": {"runs": 64, "chunk": 4, "wall": 140, "chunk_timeout": 500, "selfcheck": 6},
+    "quick": {"runs": 28, "chunk": 2, "wall": 100, "chunk_timeout": 500, "selfcheck": 6},
     "thorough": {"runs": 4000, "chunk": 8, "wall": 1700, "chunk_timeout": 900, "selfcheck": 24},
 }
 _MODULES = ["tiny", "words", "shapes", "zoo", "plain", "floats", "loopy", "loopy"]
